@@ -165,6 +165,8 @@ def run(chk) -> None:
             return not o["allowExpect"] and not ex
         if it == "clonePlain":
             return in_loop and o["detectLoop"] and not ex
+        if it == "cloneWhileCond":
+            return o["detectLoop"] and not ex
         if it == "cloneChain":
             return ((in_loop and o["detectLoop"]) or o["detectChain"]) and not ex
         if it in ("cloneLetUnused", "cloneLetMentioned"):
@@ -174,7 +176,7 @@ def run(chk) -> None:
 
     own = {"unwrap": "unwrap-abuse", "expect": "unwrap-abuse", "unwrapChain2": "unwrap-abuse",
            "unwrapChainLines": "unwrap-abuse", "expectThenUnwrap": "unwrap-abuse", "clonePlain": "clone-abuse", "cloneChain": "clone-abuse",
-           "cloneLetUnused": "clone-abuse", "cloneLetMentioned": "clone-abuse"}
+           "cloneLetUnused": "clone-abuse", "cloneLetMentioned": "clone-abuse", "cloneWhileCond": "clone-abuse"}
     for (j, sites_l, run_), (la, lb, at) in zip(meta, verdicts):
         o = spec_opts(run_["linter"], run_["opts"])
         rep = {r2["line"]: r2["n"] for r2 in run_["reported"]}
